@@ -56,7 +56,11 @@ func workerConfigYAML(dataDir string) string {
 	sb.WriteString("pqsEnabled: true\n")
 	sb.WriteString("esVersion: \"7.9.3\"\n")
 	sb.WriteString("timestampKey: timestamp\n")
-	sb.WriteString("queryTimeoutSecs: 300\n")
+	qt := "300"
+	if v := os.Getenv("VERIF_QUERY_TIMEOUT_SECS"); v != "" {
+		qt = v // checks that need queries to run into the server's own timeout
+	}
+	sb.WriteString("queryTimeoutSecs: " + qt + "\n")
 	if extra := os.Getenv("VERIF_CONFIG_EXTRA"); extra != "" {
 		sb.WriteString(extra)
 		if !strings.HasSuffix(extra, "\n") {
